@@ -543,8 +543,28 @@ def _histories(R, M, vks, rng, quick):
         model = {}
         steps = []
         for step in range(rng.randint(3, 9)):
-            op = rng.choice(['add-set_int_key', 'add-set', 'overwrite-set_int_key', 'overwrite-set', 'serialize', 'serialize', 'parse-own'])
-            if op.startswith('add') or (op.startswith('overwrite') and not model):
+            op = rng.choice(['add-set_int_key', 'add-set', 'overwrite-set_int_key', 'overwrite-set', 'serialize', 'serialize', 'parse-own',
+                             'edit-map-add', 'edit-map-del', 'edit-map-del', 'edit-map-clear', 'edit-map-rebind'])
+            if op.startswith('edit-map'):
+                # .map is a public attribute (the only way to remove a key): the next serialisation denotes the map as edited
+                R.count('direct_map_edits')
+                if op == 'edit-map-add' or not model:
+                    k = rng.getrandbits(w)
+                    v = vk.gen(rng)
+                    hm.map[k] = v
+                    model[k] = v
+                elif op == 'edit-map-del':
+                    k = rng.choice(sorted(model))
+                    del hm.map[k]
+                    del model[k]
+                elif op == 'edit-map-clear':
+                    hm.map.clear()
+                    model.clear()
+                else:
+                    k = rng.choice(sorted(model))
+                    model = {kk: vv for kk, vv in model.items() if kk != k}
+                    hm.map = dict(model)
+            elif op.startswith('add') or (op.startswith('overwrite') and not model):
                 k = rng.getrandbits(w)
                 v = vk.gen(rng)
                 (hm.set_int_key if op.endswith('set_int_key') else hm.set)(k, v)
@@ -602,6 +622,29 @@ def _address_keys(R, M, rng):
                            value_deserializer=lambda s: s.load_coins())
     R.check(set(got2) == set(addrs), 'address-keys-deser', 'Address keys do not come back through a key deserializer', {})
     R.cover('keyforms', 'address')
+    # an address with an anycast prefix is 272 + depth bits long: in a 267-bit map it does not fit (and must not land on the key of the plain address), in a map of its
+    # own width all of its bits are the key
+    for depth in (1, 5, 30):
+        base = rng.choice(addrs)
+        a = Address((base.wc, base.hash_part))
+        pfx = rng.getrandbits(depth) | 1
+        a.set_anycast(depth, pfx)
+        before = hm.serialize().hash
+        st, e = mon.call(hm.set, a, 99)
+        R.count('unfit_keys_tried')
+        W = {'address': base.to_str(False), 'anycast_depth': depth}
+        if st == 'ok':
+            R.violation('unfit-key-accepted-address-anycast-toolarge', f'an Address key with an anycast prefix ({272 + depth} bits) was accepted by a 267-bit map; keys now '
+                        f'{[hex(k)[:14] for k in list(hm.map)[:4]]}', W)
+            hm.map = dict(vals and {k: v for k, v in zip(vals, vals.values())})
+        else:
+            R.exc(e)
+            R.check(hm.serialize().hash == before, 'unfit-key-rejected-but-map-changed', 'a refused anycast Address key changed the map', W)
+        wide = M.HashMap(272 + depth).with_coins_values()
+        st, e = mon.call(wide.set, a, 5)
+        full = int('101' + u(depth, 5) + u(pfx, depth) + u(a.wc & 0xFF, 8) + rc.bytes_to_bits(a.hash_part), 2)
+        R.check(st == 'ok' and list(wide.map) == [full] and M.HashMap.parse(wide.serialize().begin_parse(), 272 + depth, value_deserializer=lambda s: s.load_coins()) == {full: 5},
+                'address-key-anycast-own-width', f'an anycast Address key in a map of its own width ({272 + depth}) is not stored under all of its bits: {e!r}'[:300], W)
 
 
 def _hashed_keys(R, M, rng):
